@@ -396,6 +396,14 @@ theorem primFieldReader_min (env : Env) (m : FieldMeta) (flex opt : Bool) :
     · intro bs v r h; contradiction
     · exact PrimR.run_min env _
 
+theorem primFieldReaderT_min (env : Env) (m : FieldMeta) (flex o tagged : Bool) :
+    MinDec 1 (primFieldReaderT env m flex o tagged) := by
+  unfold primFieldReaderT
+  split
+  · intro bs v r h; contradiction
+  · split
+    · intro bs v r h; contradiction
+    · exact PrimR.run_min env _
 
 /-! ## the step bound -/
 
@@ -623,7 +631,7 @@ theorem Shape.readS_good (env : Env) (flex tagged : Bool) (m : FieldMeta) :
   | .prim l o => by
     intro _
     simp only [Shape.readS, Shape.minSize]
-    exact tick_good (primFieldReader_min _ _ _ _)
+    exact tick_good (primFieldReaderT_min _ _ _ _ _)
   | .primArr l e a => by
     intro _
     simp only [Shape.readS, Shape.minSize]
